@@ -73,8 +73,6 @@ def p9(v, case, obs):
             if t in (0x40, 0x70) or (t == 0x50 and r >= 0x80):
                 ids_out.discard(pid)
         for (h, qos, pid, topic, plen, retain) in hs:
-            if h >= 1000:
-                continue
             cands = [k for k, e in enumerate(pend) if e[:4] == (qos, pid, plen, retain)]
             good = [k for k in cands if pend[k][4] == topic or pend[k][4] not in (1, 2, 3)]
             if cands and not good and topic in (1, 2, 3):
@@ -198,8 +196,10 @@ def p12(v, case, obs, client=False):
             if op[2] == 0 or op[2] in out_pub or op[2] in out_other:
                 return []
             out_other.add(op[2])
-        elif op[0] == 1 and op[1] == 4 and op[2] in recd:
-            pass
+        elif op[0] == 1 and op[1] == 4:
+            pass                          # PUBREL: released, or (MQTT 5) answered "packet identifier not found"
+        elif op[0] == 1 and op[1] in (13, 14, 15):
+            pass                          # PINGRESP / CONNECT / CONNACK after the handshake: decoded and ignored
         elif op[0] == 2 and op[2] == 0:
             pass
         elif op[0] == 3 and op[2] in (0, 2):
